@@ -115,7 +115,7 @@ def main(argv):
     deadline = t0 + budget
     jobs = []
     if os.path.isdir(os.path.join(HERE, "regress", pid)):
-        jobs.append({"pid": pid, "kind": "regress", "component": "regress", "tier": tier})
+        jobs.append({"pid": pid, "kind": "regress", "component": "regress", "tier": tier, "known_sigs": known_sigs})
     comps = [c for c in mod.COMPONENTS if not only or c.name == only]
     for c in comps:
         n = max(1, int((c.quick if tier == "quick" else c.thorough) * scale))
@@ -124,7 +124,7 @@ def main(argv):
             for s in range(ns):
                 jobs.append(
                     dict(pid=pid, kind="enumerate", component=c.name, tier=tier, shard=s, nshards=ns,
-                         deadline=deadline)
+                         deadline=deadline, known_sigs=known_sigs)
                 )
         if c.strategy is not None:
             ns = max(1, min(c.max_shards, 2 * NCPU, n // 8 or 1))
